@@ -255,6 +255,14 @@ class C04(vlib.Driver):
 
             # every advertised method once from the initial architecture, once forced onto its guard,
             # each followed by clone + reinit; then seeded chains
+            def bad_args(meth):
+                kinds = [{"c04_no_such_argument": 1}]
+                if "hidden_layer" in argn[meth]:
+                    kinds += [{"hidden_layer": -9}, {"hidden_layer": "0"}]
+                for a in argn[meth]:
+                    if a.startswith("numb_new"):
+                        kinds += [{a: "x"}, {a: None, "c04_no_such_argument": 0}]
+                return rng.choice(kinds[1:]) if len(kinds) > 1 and rng.random() < 0.65 else kinds[0]
             if blk in B.LIGHT_BLOCKS:
                 meth = rng.choice(methods)
                 second = rng.choice(methods)
@@ -263,6 +271,10 @@ class C04(vlib.Driver):
                                       ["mut", second, args_for(second, guard=True)], ["recreate"], ["clone"], ["reinit"]]}); nseed += 1
                 for meth in rng.sample(methods, 2):
                     cases.append({"kind": "e2e", "block": blk, "seed": nseed, "ops": [["train"], ["mut", meth, args_for(meth, guard=True)], ["clone"]]}); nseed += 1
+                b1, g1, s1 = (rng.choice(methods) for _ in range(3))
+                cases.append({"kind": "e2e", "block": blk, "seed": nseed,
+                              "ops": [["bad", b1, bad_args(b1)], ["mut", g1, args_for(g1, effective=True)], ["clone"],
+                                      ["sibling", s1, args_for(s1, effective=True)], ["clone"]]}); nseed += 1
                 continue
             for meth in methods:
                 # clone -> (train) -> mutate -> clone -> mutate again -> clone -> reinit: clones and re-created encoders are
@@ -278,6 +290,16 @@ class C04(vlib.Driver):
                 if any(a.startswith("numb_new") for a in argn[meth]) and (tier != "quick" or rng.random() < 0.5):
                     cases.append({"kind": "e2e", "block": blk, "seed": nseed, "ops": [["train"], ["mut", meth, args_for(meth, guard=True)]]}); nseed += 1
             cases.append({"kind": "e2e", "block": blk, "seed": nseed, "ops": [["train"], ["recreate"], ["clone"], ["rand"], ["reinit"]]}); nseed += 1
+            # a raising mutation call that the caller catches, then ordinary mutations and clones of the same object
+            b1, b2, g1, g2 = (rng.choice(methods) for _ in range(4))
+            cases.append({"kind": "e2e", "block": blk, "seed": nseed,
+                          "ops": [["train"], ["bad", b1, bad_args(b1)], ["mut", g1, args_for(g1, effective=True)], ["clone"],
+                                  ["bad", b2, bad_args(b2)], ["mut", g2, args_for(g2, effective=True)], ["clone"], ["reinit"]]}); nseed += 1
+            # siblings: clone the parent, mutate the clone (every method), clone the parent again
+            sib = [["sibling", meth, args_for(meth, effective=True)] for meth in methods]
+            cases.append({"kind": "e2e", "block": blk, "seed": nseed, "ops": [["train"]] + sib + [["clone"], ["reinit"]]}); nseed += 1
+            cases.append({"kind": "e2e", "block": blk, "seed": nseed,
+                          "ops": [["clone"]] + [x for meth in rng.sample(methods, min(3, len(methods))) for x in (["sibling", meth, args_for(meth, effective=True)], ["clone"])]}); nseed += 1
             m0 = rng.choice(methods)
             cases.append({"kind": "e2e", "block": blk, "seed": nseed,
                           "ops": [["train"], ["act", rng.choice(["Tanh", "ELU", "GELU", "PReLU"])], ["clone"], ["mut", m0, args_for(m0, effective=True)],
@@ -371,6 +393,22 @@ class C04(vlib.Driver):
                     break
                 rec["ret"] = str(ret)
                 rec["applied"] = str(m.last_mutation_attr)
+            elif op[0] == "bad":
+                # a mutation call with an invalid argument that the caller catches: the object must stay usable
+                try:
+                    getattr(m, op[1])(**op[2])
+                    rec["caught"] = None
+                except Exception as e:
+                    rec["caught"] = f"{type(e).__name__}: {str(e)[:120]}"
+            elif op[0] == "sibling":
+                # clone the object, mutate the CLONE, throw it away: the parent must not notice
+                try:
+                    sib = m.clone()
+                    getattr(sib, op[1])(**op[2])
+                    rec["sibling"] = str(sib.last_mutation_attr)
+                    del sib
+                except Exception as e:
+                    rec["sibling"] = f"raised {type(e).__name__}: {str(e)[:120]}"
             elif op[0] == "act":
                 # change_activation (Mutations.activation_mutate): re-creates the network, weights must survive
                 try:
@@ -557,7 +595,7 @@ class C04(vlib.Driver):
             if "raised" in rec:
                 break
             a = ref(rec["after"])
-            if op[0] in ("mut", "recreate", "act"):
+            if op[0] in ("mut", "recreate", "act", "bad", "sibling"):
                 steps.append(f"{'Same' if rec['same_arch'] else 'Mut'} {a}")
             elif op[0] in ("clone", "reinit"):
                 steps.append(f"Clone {a}")
@@ -671,7 +709,14 @@ class C04(vlib.Driver):
                 for v in out:
                     v.step = oi
                 break
-            if op[0] in ("mut", "recreate", "act"):
+            if op[0] == "sibling" and not (rec["same_arch"] and rec["params_equal"] and rec["out_equal"]):
+                out.append(Violation("sibling-changed-parent", f"e2e:sibling-changed-parent:{blk}",
+                                     f"{where}: a clone of the module was mutated ({rec['sibling']}) and discarded; the PARENT changed: init_dict equal "
+                                     f"{rec['same_arch']}, parameters/buffers equal {rec['params_equal']}, outputs equal {rec['out_equal']}"))
+            elif op[0] == "bad" and rec["caught"] and rec["same_arch"] and not (rec["params_equal"] and rec["out_equal"]):
+                out.append(Violation("failed-call-changed-network", f"e2e:failed-call-changed-network:{blk}",
+                                     f"{where}: the call raised ({rec['caught']}) and left init_dict unchanged, but parameters equal {rec['params_equal']}, outputs equal {rec['out_equal']}"))
+            elif op[0] in ("mut", "recreate", "act", "bad"):
                 for clause, k, detail in self.common_slice_violations(cur, rec["after"]):
                     out.append(Violation(clause, f"e2e:{clause}:{blk}:{category(k)}", f"{where}: {detail}"))
                     break
@@ -732,7 +777,7 @@ class C04(vlib.Driver):
         for op, rec in zip(case["ops"], obs["steps"]):
             if "raised" in rec:
                 break
-            if op[0] in ("mut", "recreate", "act") and self._sig(rec["after"]) != cur:
+            if op[0] in ("mut", "recreate", "act", "bad") and self._sig(rec["after"]) != cur:
                 return True
             cur = self._sig(rec["after"])
         return False
@@ -774,7 +819,11 @@ class C04(vlib.Driver):
             if "raised" in rec:
                 labs.append(f"op={op[0]}:{op[1].split('.')[-1] if op[0] == 'mut' else ''}:raised-{'in-' + rec['raised_in'][0] if rec['raised_in'] else 'elsewhere(C03)'}")
                 break
-            if op[0] == "act":
+            if op[0] == "bad":
+                labs.append(f"op=bad:{'raised-' + rec['caught'].split(':')[0] if rec['caught'] else 'accepted'}")
+            elif op[0] == "sibling":
+                labs.append("op=sibling:" + ("raised" if rec["sibling"].startswith("raised") else "mutated"))
+            elif op[0] == "act":
                 labs.append(f"op=act:{op[1]}")
             elif op[0] == "mut":
                 ch = "arch-changed" if self._sig(rec["after"]) != cur else ("arch-same" if rec["same_arch"] else "arch-same-signature")
